@@ -1,5 +1,6 @@
 (* C05 — List behaves as an ordered sequence with reference semantics under any program. *)
 From Anytype Require Import Base FloatBits Value Sorting Heap Slice HeapProofs.
+From Anytype Require Import HeapExt HeapExtProofs.
 From Anytype Require CloneProofs. From Anytype Require Import Footprint.
 Local Open Scope Z_scope.
 
@@ -77,6 +78,18 @@ Theorem C05_mutator_independent : forall s o r vr w f, basic_mutator o = Some r 
   reify f (st_heap (fst (step_core s o))) w = reify f (st_heap s) w.
 Proof. exact basic_mutator_independent. Qed.
 
+
+(* NewListFrom / NewObjectFrom (HeapExt.v): a []any / map[string]any tree whose leaves are scalars or live containers becomes NEW
+   cells only (the old heap is a prefix of the new one), the result reads back as the value the source denotes, and a leaf that is
+   a live container is stored by reference (store_src on a leaf returns the operand itself) *)
+Theorem C05_new_from_appends : forall env n h h' v, store_src env h n = Some (h', v) -> exists extra, h' = h ++ extra.
+Proof. exact store_src_extends. Qed.
+Theorem C05_new_from_content : forall env h n h' v f0, leaves_readable env h f0 n -> store_src env h n = Some (h', v) ->
+  exists f1 t, forall f, (f1 <= f)%nat -> src_val f h env n = Some t /\ reify f h' v = src_val f h env n.
+Proof. exact store_src_reify_enough. Qed.
+Theorem C05_new_from_leaf_by_reference : forall env h o, store_src env h (NOp o) = match eval_operand env o with Some v => Some (h, v) | None => None end.
+Proof. reflexivity. Qed.
+
 Print Assumptions C05_program_refines.
 Print Assumptions C05_growth_policy_unobservable.
 Print Assumptions C05_insert_domain.
@@ -92,3 +105,6 @@ Print Assumptions C05_get_returns_stored.
 Print Assumptions C05_panic_frame.
 Print Assumptions C05_mutator_footprint.
 Print Assumptions C05_mutator_independent.
+Print Assumptions C05_new_from_appends.
+Print Assumptions C05_new_from_content.
+Print Assumptions C05_new_from_leaf_by_reference.
